@@ -63,6 +63,9 @@ def run_task(task):
     eng = core.Engine(query_timeout_ms=opts['query_timeout_ms'], max_paths=opts['max_paths'],
                       max_fork=opts.get('max_fork', 300), seed=opts.get('seed', 0))
     eng.deadline = t0 + opts['task_timeout_s']
+    if opts.get('global_deadline'):
+        # whole-run budget: what is left over is reported as capped work (INCOMPLETE, exhaustive=false), never success
+        eng.deadline = min(eng.deadline, opts['global_deadline'])
     exports = []
     if opts.get('export_every'):
         eng.export_every = opts['export_every']
@@ -263,7 +266,8 @@ def run_property(pid, tier, seed=0, only=None, jobs=None, verbose=False):
     if only:
         cases = [c for c in cases if fnmatch.fnmatch(c[0], only)]
     defaults = {'query_timeout_ms': 20000 if tier == 'quick' else 120000, 'max_paths': 2000000,
-                'task_timeout_s': 600 if tier == 'quick' else 3000, 'replay_every': 1,
+                'task_timeout_s': 300 if tier == 'quick' else 3000, 'replay_every': 1,
+                'global_deadline': t0 + float(os.environ.get('VERIF_BUDGET_S', 1500 if tier == 'quick' else 6 * 3600)),
                 'export_every': 499 if tier == 'quick' else 199, 'export_max': 3, 'seed': seed}
     defaults.update(getattr(mod, 'OPTS', {}).get(tier, {}))
     jobs = jobs or int(os.environ.get('VERIF_JOBS', '0')) or min(16, os.cpu_count() or 4)
